@@ -180,6 +180,8 @@ def run(ctx):
                 prob = problem(n, awkward=(ci % 3 == 0 or any(samples_objective(l) for l in labels)))
                 r_, eps, limit, m = scen.rand_params(rng, n)
                 limit = min(limit, 40)
+                if any(l.startswith("console") for l in labels) and ci % 3 != 2:
+                    limit = (1, 2)[ci % 3]       # a search of one or two trials: the accuracy is still inf / just defined, the report must say so
                 pat = rng.choice(patterns(limit)[:2] + [[("dgi", 2), ("solve", 0)]])
                 if not any(c[0] == "solve" for c in pat):
                     pat = pat + [("solve", 0)]
@@ -232,6 +234,11 @@ def run(ctx):
     finally:
         os.chdir(cwd)
         shutil.rmtree(tmp, ignore_errors=True)
+    # (4) the objective fails inside Solve (contained): the listeners are still told, once, that Solve ended - with the solution it returns
+    frs = scen.fault_runs(ctx, 3 if qk else 20, full_snap=False)
+    for fr in frs:
+        fr.events[0]["tag"] += "/listener-sees-contained-failure"
+    runs += frs
     failures, stats = validate_runs(ctx, runs)
     # signatures name the listener combination
     for f in failures:
